@@ -335,7 +335,7 @@ structure CpiView where
   metas : List Meta
   infos : List Acct
   declared : Nat
-deriving Repr
+deriving Repr, DecidableEq
 
 /-- `CpiBuilder::invoke_signed` up to the syscall: infos first (may fail), then metas; writing past
 the declared array is an index panic; a fixed-size array must be filled exactly (`assert_eq!`). -/
@@ -532,6 +532,51 @@ def defaultArgFields : List SetShape → List DecodeArg
   | s :: fs => defaultArg s :: defaultArgFields fs
 end
 
+mutual
+/-- no `Option` anywhere below -/
+def optFree : SetShape → Bool
+  | .single .. => true
+  | .opt _ => false
+  | .vec s => optFree s
+  | .arr _ s => optFree s
+  | .boxed s => optFree s
+  | .struct fs => optFreeFields fs
+  | .rest s => optFree s
+def optFreeFields : List SetShape → Bool
+  | [] => true
+  | s :: fs => optFree s && optFreeFields fs
+end
+
+mutual
+/-- no `Option` below an array (the shapes for which `ContainsOption` tells the truth) -/
+def arrOptFree : SetShape → Bool
+  | .single .. => true
+  | .opt s => arrOptFree s
+  | .vec s => arrOptFree s
+  | .arr _ s => optFree s
+  | .boxed s => arrOptFree s
+  | .struct fs => arrOptFreeFields fs
+  | .rest s => arrOptFree s
+def arrOptFreeFields : List SetShape → Bool
+  | [] => true
+  | s :: fs => arrOptFree s && arrOptFreeFields fs
+end
+
+mutual
+/-- the static `(signer, writable)` requirements of the single accounts of a shape -/
+def staticFlags : SetShape → List (Bool × Bool)
+  | .single sg wr _ => [(sg, wr)]
+  | .opt s => staticFlags s
+  | .vec s => staticFlags s
+  | .arr _ s => staticFlags s
+  | .boxed s => staticFlags s
+  | .struct fs => staticFlagsFields fs
+  | .rest s => staticFlags s
+def staticFlagsFields : List SetShape → List (Bool × Bool)
+  | [] => []
+  | s :: fs => staticFlags s ++ staticFlagsFields fs
+end
+
 /-! ## Instruction data: discriminant ++ borsh(decode argument) ++ borsh(run arguments) -/
 
 mutual
@@ -629,7 +674,7 @@ def ixData (disc : List Nat) (payload : List Nat) : List Nat := disc ++ payload
 inductive EntryErr
   | badData            -- discriminant / borsh failure: `InvalidInstructionData` & co.
   | decode (e : E)
-deriving Repr
+deriving Repr, DecidableEq
 
 structure RunOut where
   used : Nat
